@@ -801,6 +801,16 @@ func (e *Env) evalCall(n *CCall) V {
 			a := e.eval(n.Args[0])
 			b := e.eval(n.Args[1])
 			return V{T: boolT, S: x.errIsTerm(a.S, b.S)}
+		case "fresh":
+			// fresh(x): x was allocated after the function's entry state
+			v := e.eval(n.Args[0])
+			if isSliceT(v.T) {
+				return V{T: boolT, S: "(> (s_base " + v.S + ") " + e.old.alloc + ")"}
+			}
+			if pt, ok := x.ptrTerm(v); ok {
+				return V{T: boolT, S: "(> " + pt + " " + e.old.alloc + ")"}
+			}
+			e.fail("fresh() needs a slice, pointer or map")
 		case "isnil":
 			v := e.eval(n.Args[0])
 			if isSliceT(v.T) {
@@ -1029,6 +1039,32 @@ func (x *Exec) sliceEqTerm(sa *State, a V, sb *State, b V) string {
 		a.S, b.S, a.S, ha, a.S, a.S, hb, b.S, b.S)
 }
 
+// paramReassigned: some phi or alloc of the function carries the parameter's name,
+// i.e. the source assigns to the parameter.
+func paramReassigned(fn *ssa.Function, p *ssa.Parameter) bool {
+	for _, b := range fn.Blocks {
+		for _, in := range b.Instrs {
+			switch i := in.(type) {
+			case *ssa.Phi:
+				if i.Comment == p.Name() {
+					return true
+				}
+			case *ssa.Alloc:
+				if i.Comment == p.Name() {
+					return true
+				}
+			case *ssa.DebugRef:
+				if o := i.Object(); o != nil && o == p.Object() && i.X != ssa.Value(p) {
+					if _, isAddr := i.X.(*ssa.Alloc); !isAddr {
+						return true
+					}
+				}
+			}
+		}
+	}
+	return false
+}
+
 // lookupLocal resolves a source-level local variable name at a program point.
 func (x *Exec) lookupLocal(fr *Frame, name string, point *ssa.BasicBlock, st *State) (V, bool) {
 	if fr.fn == nil {
@@ -1036,6 +1072,11 @@ func (x *Exec) lookupLocal(fr *Frame, name string, point *ssa.BasicBlock, st *St
 	}
 	for i, p := range fr.fn.Params {
 		if p.Name() == name {
+			// At a point inside the function a reassigned parameter denotes its current
+			// value (old(p) denotes the entry value); at the exit it denotes the entry value.
+			if point != nil && paramReassigned(fr.fn, p) {
+				break
+			}
 			return fr.params[i], true
 		}
 	}
@@ -1113,7 +1154,35 @@ func (x *Exec) lookupLocal(fr *Frame, name string, point *ssa.BasicBlock, st *St
 		}
 	}
 	if best == nil {
+		for i, p := range fr.fn.Params {
+			if p.Name() == name {
+				return fr.params[i], true
+			}
+		}
 		return V{}, false
+	}
+	// An address-taken variable (captured by a closure, or &x) lives in a cell: its
+	// current value is what the cell holds now, not what an earlier read returned.
+	if !best.addr {
+		var cell *cand
+		for _, b := range fr.fn.Blocks {
+			if !b.Dominates(point) {
+				continue
+			}
+			for idx, in := range b.Instrs {
+				if a, ok := in.(*ssa.Alloc); ok && a.Comment == name && (b != point || idx < fr.atIdx) {
+					c := &cand{v: a, addr: true, block: b, idx: idx}
+					if cell == nil || cell.block.Dominates(c.block) {
+						cell = c
+					}
+				}
+			}
+		}
+		if cell != nil {
+			if _, isPhi := best.v.(*ssa.Phi); !isPhi {
+				best = cell
+			}
+		}
 	}
 	v, ok := fr.vals[best.v]
 	if !ok {
